@@ -391,6 +391,46 @@ def run(ctx):
     ctx.decide(jf == want_j, "C04.form", lg.ident, loc_of(lg), "logit log-Jacobian == sum(-log x - log(1-x)) over the last axis",
                f"logit log-Jacobian is {T.show(jf)[:200]}", disc="jac")
 
+    # ---- clipping margin: the unit value is clamped to [eps, 1 - eps] (logit when eps is set; probit always)
+    eps_t = T.atom("eps")
+    evc = Evaluator(repo, batch_params=(lg.params[0],), assume=lambda c: True if c == eps_t else None)
+    rc = T.strip_raise(evc.run(lg, None))
+    yc = rc[1][0] if rc[0] == "t" else None
+    xc = spec("clip(x, eps, 1 - eps)", x=x, eps=eps_t)
+    ctx.decide(yc == spec("log(c) - log(1 - c)", c=xc), "C04.clip", lg.ident, loc_of(lg), "with eps set, logit is evaluated at clip(x, eps, 1 - eps)",
+               f"with eps set, logit returns {T.show(yc)[:200] if yc else None}: the clamp is not to [eps, 1 - eps]")
+    for cn in ("ProbitTransform", "LogitTransform"):
+        c = repo.cls(f"{TR}:{cn}")
+        evp = Evaluator(repo, batch_params=("x",), assume=lambda cnd: True if cnd in (eps_t, self_attr("eps")) else None)
+        fold(repo, c.resolve("__init__"), c, ev=evp)
+        fw = c.resolve("forward")
+        _, rfw = fold(repo, fw, c, ev=evp)
+        clips = [s_ for s_ in T.subterms(T.strip_raise(rfw)) if s_ and s_[0] == "f" and s_[1] == "clip"]
+        unit = spec("(x - lo) / (up - lo)", x=T.atom(fw.params[1]), lo=T.atom("lower"), up=T.atom("upper"))
+        e_ = evp.heap.get((SELF, "eps"), self_attr("eps"))
+        okc = len(set(clips)) == 1 and clips[0][2] == (unit, e_, T.sub(T.ONE, e_))
+        ctx.decide(okc, "C04.clip", f"{c.ident}.forward", loc_of(fw), "the unit-interval value is clamped to [eps, 1 - eps] before the unbounded map",
+                   f"the clamp applied before the unbounded map is {[T.show(c_)[:120] for c_ in set(clips)]} (expected clip(u, eps, 1 - eps))")
+    # ---- affine whitening statistics are per parameter (axis 0 of the fitting data)
+    AF = repo.cls(f"{TR}:AffineTransform")
+    eva = Evaluator(repo, batch_params=("x",))
+    fold(repo, AF.resolve("__init__"), AF, ev=eva)
+    fitm = AF.resolve("fit")
+    fold(repo, fitm, AF, ev=eva)
+    xf = T.atom(fitm.params[1])
+    mean_, std_, lj_ = (eva.heap.get((SELF, k)) for k in ("_mean", "_std", "log_abs_det_jacobian"))
+    oka = mean_ == spec("mean(x, axis=0)", x=xf) and std_ == spec("std(x, axis=0)", x=xf)
+    ctx.decide(oka, "C04.affine", fitm.ident, loc_of(fitm), "fit stores the per-parameter mean and standard deviation of the fitting data (axis 0)",
+               f"fit stores mean={T.show(mean_)[:80] if mean_ else None}, std={T.show(std_)[:80] if std_ else None} (expected mean/std over axis 0)")
+    okj = std_ is not None and lj_ == spec("-sum(log(abs(s)))", s=std_)
+    ctx.decide(okj, "C04.affine", fitm.ident, loc_of(fitm), "fit stores log|det| = -sum(log|std|)", f"fit stores log_abs_det_jacobian = {T.show(lj_)[:120] if lj_ else None}", disc="logdet")
+    lsm = AF.resolve("_load_state")
+    evl = Evaluator(repo)
+    fold(repo, lsm, AF, ev=evl)
+    sl, jl = evl.heap.get((SELF, "_std")), evl.heap.get((SELF, "log_abs_det_jacobian"))
+    ctx.decide(sl is not None and jl == spec("-sum(log(abs(s)))", s=sl), "C04.affine", lsm.ident, loc_of(lsm), "a reloaded affine transform recomputes log|det| = -sum(log|std|) from the stored std",
+               f"_load_state sets log_abs_det_jacobian = {T.show(jl)[:120] if jl else None}", disc="reload")
+
     # composite transform (and subclasses that inherit it unchanged are covered by MRO)
     composite(ctx, repo, comp)
     wiring(ctx, repo, comp)
@@ -418,14 +458,20 @@ def wiring(ctx, repo, comp):
                 return False
             if "is_torch" in sh or "isinstance" in sh:
                 return None
+            if cnd[0] == "cmp" and cnd[1] in ("==", "!=") and len(cnd) == 4:
+                lits = [t_[1] for t_ in cnd[2:] if t_[0] == "k" and isinstance(t_[1], str)]
+                if lits:
+                    return (lits[0] == choice) if cnd[1] == "==" else (lits[0] != choice)
+                return None
             if cnd[0] == "cmp":
-                return choice in sh
+                return None
             return True
         ev = Evaluator(repo, max_depth=1, assume=assume)
         ret = ev.run(init, comp)
         ctx.count("functions_folded")
         if T.strip_raise(ret) == T.RAISE:
-            ctx.unknown("C04.wire", construct, loc_of(init), f"[{choice}] constructor raises on the all-options-on path")
+            ctx.refute("C04.wire", construct, loc_of(init), f"with bounded_transform='{choice}' and all stages enabled the constructor raises instead of building the {choice} stage",
+                       disc=f"bounded_stage_{choice}")
             return
         results[choice] = ev
     ev = results["probit"]
@@ -538,6 +584,13 @@ MUTANTS += [
       more=[("elif self.bounded_transform == \"logit\":\n                BoundedClass = LogitTransform", "elif self.bounded_transform == \"probit\":\n                BoundedClass = LogitTransform")]),
     M("mask in a different parameter order", _T, "[p in self.periodic_parameters for p in parameters],", "[p in self.periodic_parameters for p in sorted(parameters)],", "C04.wire"),
 ]
+MUTANTS += [
+    M("logit clamp upper end wrong", _U, "x = xp.clip(x, eps, 1 - eps)", "x = xp.clip(x, eps, 1 + eps)", "C04.clip"),
+    M("probit value not clamped", _T, "y = self.xp.clip(y, self.eps, 1.0 - self.eps)\n", "", "C04.clip"),
+    M("affine statistics over the wrong axis", _T, "self._mean = x.mean(0)\n        self._std = x.std(0)", "self._mean = x.mean(1)\n        self._std = x.std(1)", "C04.affine"),
+    M("reloaded affine log-det sign", _T, "self._std = asarray(h5_file[\"std\"][()], xp=self.xp)\n        self.log_abs_det_jacobian = -self.xp.log(self.xp.abs(self._std)).sum()", "self._std = asarray(h5_file[\"std\"][()], xp=self.xp)\n        self.log_abs_det_jacobian = self.xp.log(self.xp.abs(self._std)).sum()", "C04.affine"),
+    M("bounded class chosen by inequality", _T, "if self.bounded_transform == \"probit\":\n                BoundedClass = ProbitTransform", "if self.bounded_transform != \"probit\":\n                BoundedClass = ProbitTransform", "C04.wire"),
+]
 NEUTRALS = [
     M("affine forward via temporaries", _T, "y = (x - self._mean) / self._std", "centred = x - self._mean\n        y = centred / self._std"),
     M("affine inverse operand order", _T, "x = y * self._std + self._mean", "x = self._mean + self._std * y"),
@@ -545,4 +598,29 @@ NEUTRALS = [
     M("probit Jacobian regrouped", _T, "log_abs_det_jacobian = -(0.5 * (math.log(2 * math.pi) + y**2)).sum(-1)", "log_abs_det_jacobian = -0.5 * (y**2 + math.log(2 * math.pi)).sum(-1)"),
     M("composite accumulates with explicit sum", _T, "log_abs_det_jacobian += log_j_bounded", "log_abs_det_jacobian = log_j_bounded + log_abs_det_jacobian", count=2),
     M("periodic forward via width expression", _T, "y = self.lower + (x - self.lower) % self._width", "y = (x - self.lower) % (self.upper - self.lower) + self.lower"),
+]
+
+# functions the property is anchored in (auto-mutant sweep of the thorough tier)
+ANCHORS = [
+    'aspire.utils:logit',
+    'aspire.utils:sigmoid',
+    'aspire.transforms:BoundedTransform.__init__',
+    'aspire.transforms:BoundedTransform.to_unit_interval',
+    'aspire.transforms:BoundedTransform.from_unit_interval',
+    'aspire.transforms:ProbitTransform.forward',
+    'aspire.transforms:ProbitTransform.inverse',
+    'aspire.transforms:LogitTransform.forward',
+    'aspire.transforms:LogitTransform.inverse',
+    'aspire.transforms:PeriodicTransform.__init__',
+    'aspire.transforms:PeriodicTransform.forward',
+    'aspire.transforms:PeriodicTransform.inverse',
+    'aspire.transforms:AffineTransform.fit',
+    'aspire.transforms:AffineTransform.forward',
+    'aspire.transforms:AffineTransform.inverse',
+    'aspire.transforms:CompositeTransform.__init__',
+    'aspire.transforms:CompositeTransform.fit',
+    'aspire.transforms:CompositeTransform.forward',
+    'aspire.transforms:CompositeTransform.inverse',
+    'aspire.transforms:IdentityTransform.forward',
+    'aspire.transforms:IdentityTransform.inverse',
 ]
